@@ -1,5 +1,7 @@
+pub mod bls;
 pub mod bvals;
 pub mod c03;
+pub mod c04;
 pub mod c05;
 pub mod c08;
 pub mod c10;
@@ -22,6 +24,7 @@ pub fn dispatch(prop: &str, tier: Tier, replay: Option<String>) -> i32 {
             }
         },
         "C03" => c03::run(tier, replay),
+        "C04" => c04::run(tier, replay),
         "C05" => c05::run(tier, replay),
         "C08" => c08::run(tier, replay),
         "C10" => c10::run(tier, replay),
